@@ -79,11 +79,15 @@ pub struct Cfg {
     /// start offset); otherwise the seed of the slot permutation and the start offsets
     #[serde(default)]
     pub stack_seed: u64,
+    /// simulated environment variables and process id (S9): 0 = reference (no variable set,
+    /// pid 4242); otherwise the seed of the value every queried name gets, and of the pid
+    #[serde(default)]
+    pub env_seed: u64,
 }
 
 impl Cfg {
     pub fn reference() -> Cfg {
-        Cfg { workers: 1, strategy: "sequential".into(), sched_seed: 0, hash_seed: 0, addr_seed: None, prefix: vec![], from_worker: false, decisions: None, repeat: false, callers: 1, callers_other: false, inplace: false, clock_seed: 0, cpus: 0, stack_seed: 0 }
+        Cfg { workers: 1, strategy: "sequential".into(), sched_seed: 0, hash_seed: 0, addr_seed: None, prefix: vec![], from_worker: false, decisions: None, repeat: false, callers: 1, callers_other: false, inplace: false, clock_seed: 0, cpus: 0, stack_seed: 0, env_seed: 0 }
     }
 }
 
@@ -127,6 +131,8 @@ pub struct RunInfo {
     pub key_draws: u64,
     pub alloc: seams::AllocStats,
     pub env: seams::EnvStats,
+    /// (environment variables read, process id queries) by simulated threads
+    pub envvar: (u64, u64),
     pub solver_calls: usize,
 }
 
@@ -164,6 +170,7 @@ pub fn run_one(sc: &Scenario, op: &'static OpDef, input: &Input, prefix_inputs: 
     seams::begin_run(cfg.addr_seed);
     seams::begin_env(cfg.clock_seed, cfg.cpus);
     seams::set_stack_seed(cfg.stack_seed);
+    seams::set_envvar_seed(cfg.env_seed, cfg.workers);
     let scfg = sim::Config {
         workers: cfg.workers,
         strategy: strategy_of(&cfg.strategy),
@@ -263,6 +270,7 @@ pub fn run_one(sc: &Scenario, op: &'static OpDef, input: &Input, prefix_inputs: 
         key_draws: seams::hash_draws(),
         alloc: seams::alloc_stats(),
         env: seams::env_stats(),
+        envvar: seams::envvar_stats(),
         solver_calls: geo::algorithm::bool_ops::verif_hooks::solver_calls() - calls0,
     };
     (outcome, info)
@@ -435,6 +443,7 @@ pub fn gen_cfg(seed: u64, v: u64) -> Cfg {
         clock_seed: if rng.chance(1, 2) { rng.next_u64() | 1 } else { 0 },
         cpus: if rng.chance(1, 2) { *rng.pick(&[1usize, 2, 3, 4, 6, 8, 12, 16, 24, 32, 64, 128]) } else { 0 },
         stack_seed: if rng.chance(2, 3) { rng.next_u64() | 1 } else { 0 },
+        env_seed: if rng.chance(1, 2) { rng.next_u64() | 1 } else { 0 },
     }
 }
 
@@ -560,6 +569,7 @@ fn minimise(sc: &Scenario, cfg: &Cfg) -> Option<Minimised> {
     try_reset("clock", &|c| c.clock_seed = 0, &mut cfg);
     try_reset("cpus", &|c| c.cpus = 0, &mut cfg);
     try_reset("stack", &|c| c.stack_seed = 0, &mut cfg);
+    try_reset("env", &|c| c.env_seed = 0, &mut cfg);
     try_reset("addr", &|c| c.addr_seed = None, &mut cfg);
     try_reset("hash", &|c| c.hash_seed = 0, &mut cfg);
     try_reset(
@@ -600,6 +610,9 @@ fn minimise(sc: &Scenario, cfg: &Cfg) -> Option<Minimised> {
     }
     if cfg.stack_seed != 0 {
         needed.push("stack");
+    }
+    if cfg.env_seed != 0 {
+        needed.push("env");
     }
     if cfg.addr_seed.is_some() {
         needed.push("addr");
@@ -751,6 +764,11 @@ fn account(t: &mut Tot, sc: &Scenario, cfg: &Cfg, info: &RunInfo) {
     if cfg.stack_seed != 0 {
         t.add("runs_with_stack_placement_variant", 1);
     }
+    if cfg.env_seed != 0 {
+        t.add("runs_with_env_variant", 1);
+    }
+    t.add("env_var_reads", info.envvar.0);
+    t.add("pid_reads", info.envvar.1);
     t.max("fixed_area_relocated", seams::stack_stats().1 + seams::arena_relocated());
     t.max("arena_abandoned_bytes", info.alloc.abandoned_bytes);
     t.max("arena_exhausted", info.alloc.exhausted);
